@@ -589,15 +589,16 @@ ANCHORS = [("typhon/files/utils.py", "compress"), ("typhon/files/utils.py", "com
 
 def make_check():
     return vlib.Check(
-        PROP, pkg="fsops", props="Proofs.Props.C12", driver="drv_c12", model_files=["Model/FS.lean", "Model/Compress.lean"],
+        PROP, pkg="fsops", props="Proofs.Props.C12", driver="drv_c12", lemma_files=["Proofs/Lemmas/Names.lean"],
+        model_files=["Model/FS.lean", "Model/Compress.lean"],
         trusted=["hand-written control-flow model Model/Compress.lean tied to typhon/files/utils.py by the correspondence run of this "
                  "check (driver drv_c12: same names, fmt=, fault step, block behaviour, archive; compared: outcome, class of the "
                  "target, temp namespace clean, bytes seen by the block, splitext/format/member names)",
                  "the codecs gzip, bz2, zipfile, lzma are a parameter of the model (contract dec(enc b) = b); the harness checks "
                  "every stored file with the standard library",
                  "tempfile (fresh names), os.unlink / shutil.rmtree succeed: modelled, not verified",
-                 "member-name agreement memberC = memberD is a hypothesis of C12_roundtrip (evaluated on examples, compared with "
-                 "ZipFile.namelist() on every zip case)"],
+                 "member-name agreement memberC = memberD is proved for all names [dir/]base.ext (C12_member_names, "
+                 "C12_roundtrip_names) and compared with ZipFile.namelist() on every zip case"],
         assumptions=["the caller's block writes temporary data only below the yielded path and does not delete it",
                      "cleanup steps (rmtree of the temporary directory, unlink of the copy) do not fail themselves",
                      "a partially written *target* after a fault inside compress_as is not debris in the property's sense"])
